@@ -32,7 +32,7 @@ def base_events(n=3, spell=2, mgmt=True, raises=False, introspect=False, extra=(
     ev = call_events(n, spell)
     if mgmt:
         ev += [('dump',), ('load',), ('clear',), ('arch', False), ('arch', True), ('dumpk', 0), ('loadk', 1),
-               ('clearks',), ('newarch',), ('dumpks', 2, 0, 1), ('loadks', 2, 0)]
+               ('clearks',), ('newarch',), ('newarchc',), ('dumpks', 2, 0, 1), ('loadks', 2, 0)]
     if raises:
         ev += [('raise', 0, 'Boom'), ('raise', n - 1, 'KeyError'), ('raise', 1, 'TypeError')]
     if introspect:
@@ -167,6 +167,11 @@ def m_C05(tier):
                 cfgs.append(C(mod, alg, 2, False, 'default', backend, nargs=5, spellings=0, wide=True))
             if tier == 'thorough':
                 cfgs.append(C(mod, alg, 3, False, 'default', 'dict', nargs=6, spellings=0, wide=True))
+    # purge requested at decoration time, the archive only attached afterwards (f.archive(obj))
+    for mod in MODULES:
+        for alg in BOUNDED:
+            for ms in (1, 2):
+                cfgs.append(C(mod, alg, ms, True, 'default', 'none', attach_later=True))
     cfgs += [c for c in twin_configs(tier) if c['alg'] in BOUNDED]
     cfgs += rec_configs(tier, BOUNDED)
     cfgs += scale_configs(tier)
@@ -240,6 +245,11 @@ def m_C02(tier):
             for b in pers:
                 for purge in ((False,) if alg in ('no', 'inf') else (False, True)):
                     cfgs.append(C(mod, alg, None if alg in ('no', 'inf') else 1, purge, 'str', b, nargs=2, spellings=1))
+    # keys of other shapes (tuples from the raw keymap, nested tuples, bytes): the per-key archive lookup must find them
+    for mod in MODULES:
+        for alg in (('lru', 'no', 'inf') if tier == 'quick' else ALL):
+            for km in ('raw', 'pickle', 'rawtyped', 'rawsent') if tier == 'thorough' else ('raw', 'rawsent'):
+                cfgs.append(C(mod, alg, None if alg in ('no', 'inf') else 1, False, km, 'dict', nargs=2, spellings=1))
     cfgs += falsy_configs(tier)
     # narrow and deep: two keys, the archive toggles and the archive replacement (state parked by a toggle only
     # matters several operations later)
@@ -401,6 +411,8 @@ def ev_for(prop, cfg, tier):
         if cfg['alg'] == 'lfu':
             ev += [('callx', 0, 3)]
         return ev
+    if prop == 'C05' and cfg.get('attach_later'):
+        return call_events(n, sp) + [('newarch',), ('newarchc',), ('arch', False), ('arch', True), ('clear',)]
     if prop == 'C05' and cfg.get('wide'):
         return call_events(n, sp) + [('clearks',), ('clear',)]
     if prop == 'C05':
